@@ -160,6 +160,10 @@ class RealNode:
         return UDP6EndpointAddress((addr[0], addr[1], 0, 0), self.mint)
 
     def receive(self, dg, local_ip=None):
+        # callbacks that are ready in the very loop pass in which this datagram is read (a timer of the application, say): they run
+        # after the reader callback, before anything the reader callback has only scheduled
+        self._same_pass = [fn for match, fn in self.world.same_pass if match(dg)]
+        self.world.same_pass = [(match, fn) for match, fn in self.world.same_pass if not match(dg)]
         pk = _in6_pktinfo.pack(socket.inet_pton(socket.AF_INET6, local_ip or dg.dst[0]), 0)
         self.sock.rx.append((dg.data, [(socket.IPPROTO_IPV6, socket.IPV6_PKTINFO, pk)], 0, (dg.src[0], dg.src[1], 0, 0)))
         self._kick()
@@ -189,6 +193,9 @@ class RealNode:
                 self.sock.rx.clear()
                 self.sock.errq.clear()
         loop.call_soon(readable)    # through Handle._run, so escaping exceptions reach the loop's handler
+        for fn in getattr(self, "_same_pass", ()):
+            loop.call_soon(fn)
+        self._same_pass = []
         loop.settle()
 
     def state(self):
@@ -228,6 +235,7 @@ class World:
         self.fault_fired = []
         self.logs = LogCollector()
         self._loggers = []
+        self.same_pass = []        # (match(dg), fn): fn runs in the loop pass in which a matching datagram is read by a real node
         self.on_emit = []       # monitors: f(dgram)
         self.disposed = False
 
